@@ -136,10 +136,149 @@ pub enum FmtOutcome {
     Ok(String),
     ParseError(String),
     Panic(PanicInfo),
+    /// watchdog: inconclusive, never a verdict
+    Timeout,
+}
+
+/// `format_text` behind a process fence: the text is formatted by a persistent worker process
+/// (`zyverif fmt-worker`, one per calling thread) that is killed and restarted when a request exceeds
+/// the deadline — an exponential layout search cannot be interrupted in-process.  A deadline hit is
+/// `Timeout` (inconclusive), never a verdict.
+pub fn format_text(text: &str) -> FmtOutcome {
+    FMT_WORKER.with(|slot| {
+        let mut slot = slot.borrow_mut();
+        if slot.is_none() {
+            *slot = FmtWorker::spawn();
+        }
+        let Some(worker) = slot.as_mut() else { return format_text_unbounded(text) };
+        match worker.request(text, 8) {
+            | Some(o) => o,
+            | None => {
+                // kill and forget; a fresh worker is started on the next request
+                if let Some(mut w) = slot.take() {
+                    let _ = w.child.kill();
+                    let _ = w.child.wait();
+                }
+                FmtOutcome::Timeout
+            }
+        }
+    })
+}
+
+thread_local! {
+    static FMT_WORKER: std::cell::RefCell<Option<FmtWorker>> = const { std::cell::RefCell::new(None) };
+}
+
+struct FmtWorker {
+    child: std::process::Child,
+    stdin: std::process::ChildStdin,
+    rx: std::sync::mpsc::Receiver<Option<(u8, Vec<u8>)>>,
+}
+
+impl Drop for FmtWorker {
+    fn drop(&mut self) {
+        let _ = self.child.kill();
+        let _ = self.child.wait();
+    }
+}
+
+impl FmtWorker {
+    fn spawn() -> Option<FmtWorker> {
+        use std::process::{Command, Stdio};
+        let exe = std::env::current_exe().ok()?;
+        let mut child = Command::new(exe)
+            .arg("fmt-worker")
+            .stdin(Stdio::piped())
+            .stdout(Stdio::piped())
+            .stderr(Stdio::null())
+            .spawn()
+            .ok()?;
+        let stdin = child.stdin.take()?;
+        let mut stdout = child.stdout.take()?;
+        let (tx, rx) = std::sync::mpsc::channel();
+        std::thread::spawn(move || {
+            use std::io::Read;
+            loop {
+                let mut head = [0u8; 5];
+                if stdout.read_exact(&mut head).is_err() {
+                    let _ = tx.send(None);
+                    return;
+                }
+                let len = u32::from_le_bytes([head[1], head[2], head[3], head[4]]) as usize;
+                let mut body = vec![0u8; len];
+                if stdout.read_exact(&mut body).is_err() {
+                    let _ = tx.send(None);
+                    return;
+                }
+                if tx.send(Some((head[0], body))).is_err() {
+                    return;
+                }
+            }
+        });
+        Some(FmtWorker { child, stdin, rx })
+    }
+
+    fn request(&mut self, text: &str, secs: u64) -> Option<FmtOutcome> {
+        use std::io::Write;
+        let bytes = text.as_bytes();
+        self.stdin.write_all(&(bytes.len() as u32).to_le_bytes()).ok()?;
+        self.stdin.write_all(bytes).ok()?;
+        self.stdin.flush().ok()?;
+        match self.rx.recv_timeout(std::time::Duration::from_secs(secs)) {
+            | Ok(Some((tag, body))) => {
+                let s = String::from_utf8_lossy(&body).into_owned();
+                Some(match tag {
+                    | 0 => FmtOutcome::Ok(s),
+                    | 1 => FmtOutcome::ParseError(s),
+                    | _ => {
+                        let mut parts = s.split('\u{0}');
+                        let msg = parts.next().unwrap_or("").to_string();
+                        let file = parts.next().unwrap_or("").to_string();
+                        let line = parts.next().and_then(|l| l.parse().ok()).unwrap_or(0);
+                        FmtOutcome::Panic(PanicInfo { msg, file, line })
+                    }
+                })
+            }
+            | _ => None,
+        }
+    }
+}
+
+/// Body of `zyverif fmt-worker`: length-prefixed requests on stdin, tagged responses on stdout.
+pub fn fmt_worker_main() -> i32 {
+    use std::io::{Read, Write};
+    let mut stdin = std::io::stdin().lock();
+    let mut stdout = std::io::stdout().lock();
+    loop {
+        let mut head = [0u8; 4];
+        if stdin.read_exact(&mut head).is_err() {
+            return 0;
+        }
+        let len = u32::from_le_bytes(head) as usize;
+        let mut body = vec![0u8; len];
+        if stdin.read_exact(&mut body).is_err() {
+            return 0;
+        }
+        let text = String::from_utf8_lossy(&body).into_owned();
+        let (tag, payload) = match format_text_unbounded(&text) {
+            | FmtOutcome::Ok(s) => (0u8, s),
+            | FmtOutcome::ParseError(m) => (1u8, m),
+            | FmtOutcome::Panic(p) => (2u8, format!("{}\u{0}{}\u{0}{}", p.msg, p.file, p.line)),
+            | FmtOutcome::Timeout => (1u8, "timeout".into()),
+        };
+        let b = payload.as_bytes();
+        if stdout.write_all(&[tag]).is_err()
+            || stdout.write_all(&(b.len() as u32).to_le_bytes()).is_err()
+            || stdout.write_all(b).is_err()
+            || stdout.flush().is_err()
+        {
+            return 0;
+        }
+    }
 }
 
 /// Exactly what `zydeco fmt` does in memory (cli/src/format.rs `render`).
-pub fn format_text(text: &str) -> FmtOutcome {
+pub fn format_text_unbounded(text: &str) -> FmtOutcome {
     match parse_unit(text) {
         | ParseOutcome::Rejected(m) => FmtOutcome::ParseError(m),
         | ParseOutcome::Panic(p) => FmtOutcome::Panic(p),
@@ -748,4 +887,52 @@ pub fn float_role(is32: bool, op: &str) -> BuiltinValueRole {
         | _ => FloatOperation::ToString,
     };
     BuiltinValueRole::Float(if is32 { FloatType::Float32 } else { FloatType::Float64 }, o)
+}
+
+/* ------------------------------------------------------------------------- */
+/* desugared structure of a text (for formatter properties)                  */
+/* ------------------------------------------------------------------------- */
+
+/// Structural dump of the desugared program (ids and spans do not appear in it) plus a summary of the
+/// decoded directives whose meaning comes from adjacent trivia.
+fn strip_positions(s: &str) -> String {
+    // error texts mention line:col positions, which formatting legitimately changes
+    s.chars().filter(|c| !c.is_ascii_digit()).collect()
+}
+
+pub fn desugar_dump(text: &str) -> Result<String, String> {
+    use zydeco_surface::bitter::{SourceUnitDesugarer, fmt::Formatter as BitterFormatter};
+    use zydeco_syntax::Ugly;
+    use zydeco_utils::pass::CompilerPass;
+    let parsed = match parse_unit(text) {
+        | ParseOutcome::Ok(p) => p,
+        | ParseOutcome::Rejected(m) => return Err(format!("parse: {m}")),
+        | ParseOutcome::Panic(p) => return Err(format!("parse panic: {}", p.describe())),
+    };
+    let r = catch(|| {
+        let structure = match SourceUnitDesugarer::new(&parsed.parser.spans, &parsed.parser.arena, parsed.unit).run() {
+            | Ok(out) => out.root.ugly(&BitterFormatter::new(&out.arena)),
+            | Err(e) => format!("<desugar error: {e}>"),
+        };
+        let unit = parsed.unit;
+        let arena = &parsed.parser.arena;
+        let spans = &parsed.parser.spans;
+        let imports = match unit.imports(arena, spans) {
+            | Ok(v) => v.iter().map(|s| format!("{:?}", s.directive.target)).collect::<Vec<_>>().join(","),
+            | Err(e) => format!("<{}>", strip_positions(&format!("{e}"))),
+        };
+        let literals = match unit.literals(arena, spans) {
+            | Ok(v) => v.iter().map(|s| format!("{:?}", s.directive.text.text)).collect::<Vec<_>>().join(","),
+            | Err(e) => format!("<{}>", strip_positions(&format!("{e}"))),
+        };
+        let docs = unit
+            .documentation(arena, spans)
+            .iter()
+            .map(|s| format!("{:?}", s.directive.comment.as_ref().map(|c| c.text.clone())))
+            .collect::<Vec<_>>()
+            .join(",");
+        // unattached `--|` blocks carry no meaning (a warning only); their preservation is C13's subject
+        format!("{structure}\n#imports[{imports}]\n#literals[{literals}]\n#docs[{docs}]")
+    });
+    r.map_err(|p| format!("desugar panic: {}", p.describe()))
 }
